@@ -68,7 +68,8 @@ def main():
         out = os.path.join(HERE, 'seeded', name)
         os.makedirs(out, exist_ok=True)
         for f in ('patch.diff', 'demo.py'):
-            shutil.copy(os.path.join(src, f), os.path.join(out, f))
+            if os.path.abspath(src) != os.path.abspath(out):
+                shutil.copy(os.path.join(src, f), os.path.join(out, f))
         meta = {}
         try:
             meta = json.load(open(os.path.join(src, 'meta.json')))
@@ -77,7 +78,11 @@ def main():
         old = {}
         if os.path.exists(os.path.join(out, 'meta.json')):
             old = json.load(open(os.path.join(out, 'meta.json')))
+        if os.path.abspath(src) == os.path.abspath(out):
+            meta = dict(old)
         meta['confirmed_by_maintainer'] = True
+        meta['missed_before_strengthening'] = sorted(set(old.get('missed_before_strengthening', [])) |
+                                                     (set(old.get('missed_by', [])) & set(result['caught_by'])))
         meta['caught_by'] = sorted(set(old.get('caught_by', [])) | set(result['caught_by']))
         meta['missed_by'] = sorted((set(old.get('missed_by', [])) | set(result['missed_by'])) - set(meta['caught_by']))
         meta['what_i_ran'] = old.get('what_i_ran', []) + result['ran']
